@@ -3,6 +3,8 @@ package c12
 import (
 	"fmt"
 	"os"
+	"os/exec"
+	"path/filepath"
 	"sort"
 	"strconv"
 	"strings"
@@ -242,8 +244,75 @@ func genTasks(out *kit.Out, r *kit.Rand, n int, tier string) {
 	if k < 6 {
 		k = 6
 	}
+	prefix := "t"
+	if tier == "racechild" {
+		prefix, k = "rt", n
+	}
 	for i := 0; i < k; i++ {
-		emit(out, fmt.Sprintf("t%d", i), execCase(genTask(r.Fork())))
+		emit(out, fmt.Sprintf("%s%d", prefix, i), execCase(genTask(r.Fork())))
 		out.Flush()
 	}
+}
+
+// raceTasks (thorough tier): rebuild this harness with the Go race detector and repeat real-task cases
+// under it. Only one of the parallel seed jobs of a check run does it (lock file in the run's scratch dir).
+// The child's cases are copied to the output (judged like every other case); a final case reports how
+// many data races the detector printed.
+func raceTasks(out *kit.Out, seed uint64, n int) {
+	scratch := os.Getenv("VERIF_SCRATCH")
+	if scratch == "" {
+		d, err := os.MkdirTemp("", "c12-race-")
+		if err != nil {
+			return
+		}
+		defer os.RemoveAll(d)
+		scratch = d
+	}
+	lock, err := os.OpenFile(filepath.Join(scratch, "c12-race.lock"), os.O_CREATE|os.O_EXCL|os.O_WRONLY, 0o644)
+	if err != nil {
+		return // another seed job of this run does it
+	}
+	lock.Close()
+	exe, err := os.Executable()
+	if err != nil {
+		emit(out, "race", []string{"race check tasks=0 => err:exe"})
+		return
+	}
+	hdir := filepath.Join(filepath.Dir(exe), "..", "harness")
+	bin := filepath.Join(scratch, "vh-c12-race")
+	build := exec.Command("go", "build", "-race", "-tags", "verif", "-o", bin, "./cmd/c12")
+	build.Dir = hdir
+	build.Env = append(os.Environ(), "GOFLAGS=-mod=mod", "GOPROXY=off", "CGO_ENABLED=1")
+	if msg, err := build.CombinedOutput(); err != nil {
+		fmt.Fprintln(os.Stderr, "c12: race build failed:", err, string(msg))
+		emit(out, "race", []string{"race check tasks=0 => err:build"})
+		return
+	}
+	defer os.Remove(bin)
+	k := n / 100
+	if k < 10 {
+		k = 10
+	}
+	if k > 60 {
+		k = 60
+	}
+	child := exec.Command(bin, "-seed", strconv.FormatUint(seed, 10), "-n", strconv.Itoa(k), "-tier", "racechild")
+	child.Env = append(os.Environ(), "GORACE=exitcode=0")
+	var so, se strings.Builder
+	child.Stdout, child.Stderr = &so, &se
+	if err := child.Run(); err != nil {
+		fmt.Fprintln(os.Stderr, "c12: race child failed:", err, se.String())
+		emit(out, "race", []string{fmt.Sprintf("race check tasks=%d => err:run", k)})
+		return
+	}
+	for _, l := range strings.Split(so.String(), "\n") {
+		if strings.TrimSpace(l) != "" {
+			out.Line(l)
+		}
+	}
+	races := strings.Count(se.String(), "WARNING: DATA RACE")
+	if races > 0 {
+		fmt.Fprintln(os.Stderr, se.String())
+	}
+	emit(out, "race", []string{fmt.Sprintf("race check tasks=%d => %d", k, races)})
 }
